@@ -135,7 +135,9 @@ func ssaRanges(fn *ssa.Function, peerSent []aff) ssaRangeFacts {
 							se.bind[callee.Params[i]] = x
 						}
 					}
-					if len(sub) > 0 {
+					// helpers that are handed a window, and methods of the garbling handle
+					onHandle := callee.Signature.Recv() != nil && strings.HasSuffix(callee.Signature.Recv().Type().String(), "/circuit.Garbled")
+					if len(sub) > 0 || onHandle {
 						collect(callee, se, sub, depth+1)
 					}
 				}
